@@ -85,6 +85,18 @@ Definition le16 (n : nat) : Z * Z :=
 Definition dec16 (p : Z * Z) : nat := Z.to_nat (fst p + 256 * snd p)%Z.
 Definition hdr (l : list Z) : Z * Z := (nth 0 l 0%Z, nth 1 l 0%Z).
 
+(* noise.write_message(payload, &mut frame.as_mut_capacity()[2..]) = ct;
+   frame.set_prefix((n as u16).to_le_bytes()); frame.extend(2 + n) *)
+Definition build_frame (fr0 : buffer) (ct : list Z) : outcome unit buffer :=
+  let* fr1 := buf_write_cap fr0 2 ct in
+  let* fr2 := buf_set_prefix2 fr1 (le16 (length ct)) in
+  buf_extend fr2 (2 + length ct).
+
+(* a read of |bytes| bytes into as_mut_capacity(); extend(|bytes|) *)
+Definition buf_fill (b : buffer) (bytes : list Z) : outcome unit buffer :=
+  let* b1 := buf_write_cap b 0 bytes in
+  buf_extend b1 (length bytes).
+
 (* ------------------------------------------------------------------------- *)
 (* the scripted transport shared by the two endpoints of one direction *)
 
@@ -231,9 +243,7 @@ Section Stream.
         then Ok ({| w_payload := w_payload w1; w_frame := fr0; w_sent := w_sent w1 |}, n1, PErr ENoise)
         else
           let ct := enc (length (w_sent w1)) pl in
-          let* fr1 := buf_write_cap fr0 LENF ct in
-          let* fr2 := buf_set_prefix2 fr1 (le16 (length ct)) in
-          let* fr3 := buf_extend fr2 (LENF + length ct) in
+          let* fr3 := build_frame fr0 ct in
           let* p1 := buf_take (w_payload w1) (buf_len (w_payload w1)) in
           let p2 := buf_reset p1 in
           Ok ({| w_payload := p2; w_frame := fr3; w_sent := w_sent w1 ++ [pl] |}, n1, PReady tt)
@@ -296,8 +306,7 @@ Section Stream.
             | PErr e => Ok (r, n1, PErr e)
             | PReady bytes =>
                 if length bytes =? 0 then Ok (r, n1, PReady None) else
-                let* fr1 := buf_write_cap (r_frame r) 0 bytes in
-                let* fr2 := buf_extend fr1 (length bytes) in
+                let* fr2 := buf_fill (r_frame r) bytes in
                 read_frame f {| r_payload := r_payload r; r_frame := fr2; r_got := r_got r |} n1
             end
         end
